@@ -185,6 +185,7 @@ def run(run: common.Run):
             run.hist['auto-block-shape: ' + ('error' if got == 'err' else 'one block' if got == f'{H} {W}' else 'halved')] += 1
         run.sample(dict(case=case, model_request=lines[-1], impl_reply=impls[-1][:300]), 3)
     cross_crs(run)
+    rotated(run)
     run.compare_lines(auto_cases, auto_lines, auto_impls)
     failed = {f['case']['i'] for f in run.failures}
     replies = common.model_batch(lines)
@@ -369,3 +370,81 @@ def cross_crs(run):
                            f'processed source {shp} in no output window, {ndbl} in more than one')
                 if bad:
                     run.fail(case, bad, signature=dict(kind='cross-crs-cover'))
+
+
+def rotated(run):
+    """
+    Rotated source images (neither north-up nor south-up; homonim reads them through a north-up WarpedVRT), in a projected CRS
+    with metre pixels and in a geographic CRS with pixels of 1e-6 .. 2e-5 degrees (where the rotation terms of the transform are
+    tiny numbers): the source output windows tile the processed source exactly and paired windows cover the same ground.
+    """
+    import math
+    import warnings
+    import numpy as np
+    import rasterio as rio
+    from rasterio.crs import CRS
+    from rasterio.transform import Affine
+    from homonim.raster_pair import RasterPairReader
+    from homonim.enums import ProcCrs
+    from homonim import errors
+    tmp = run.tmpdir()
+    k = 0
+    for crs, px, x0, y0 in ((CRS.from_epsg(4326), 1e-6, 24.0, -33.0), (CRS.from_epsg(4326), 2e-5, 24.0, -33.0),
+                            (CRS.from_epsg(32735), 1.0, 500_000.0, 6_200_000.0)):
+        for ang in (20.0, -35.0):
+            for proc, nblk in (('auto', 3), ('ref', 0), ('src', 2)):
+                k += 1
+                sw, sh = 48, 60
+                st = Affine.translation(x0, y0) * Affine.rotation(ang) * Affine.scale(px, -px)
+                xs, ys = zip(*[st * c for c in ((0, 0), (sw, 0), (0, sh), (sw, sh))])
+                rres = 2.5 * px
+                rx0, ry0 = min(xs) - 6 * rres, max(ys) + 6 * rres
+                rw, rh = int(math.ceil((max(xs) - rx0) / rres)) + 6, int(math.ceil((ry0 - min(ys)) / rres)) + 6
+                rt = Affine(rres, 0, rx0, 0, -rres, ry0)
+                sp, rp = tmp / 'c06r_s.tif', tmp / 'c06r_r.tif'
+                for p_, tr, w_, h_ in ((sp, st, sw, sh), (rp, rt, rw, rh)):
+                    with rio.open(p_, 'w', driver='GTiff', width=w_, height=h_, count=1, dtype='float32', crs=crs, transform=tr,
+                                  nodata=float('nan')) as ds:
+                        ds.write(np.ones((1, h_, w_), dtype='float32'))
+                case = dict(i=950_000 + k, op='rotated source', crs=crs.to_string(), pixel=px, angle=ang, proc=proc, halvings=nblk)
+                try:
+                    with warnings.catch_warnings():
+                        warnings.simplefilter('ignore')
+                        rd = RasterPairReader(sp, rp, proc_crs=ProcCrs(proc))
+                        with rd:
+                            proc_ref = rd.proc_crs == ProcCrs.ref
+                            pw = rd._ref_win if proc_ref else rd._src_win
+                            mbm = (pw.height * pw.width * 4 / 2 ** nblk) * 1.0001 / 2 ** 20 if nblk else np.inf
+                            bps = list(rd.block_pairs(overlap=(1, 1), max_block_mem=mbm))
+                            shp, t_s, t_r = rd.src_im.shape, rd.src_im.transform, rd.ref_im.transform
+                except errors.BlockSizeError:
+                    continue
+                except Exception as ex:
+                    run.fail(case, f'reader raised {type(ex).__name__}: {ex}', signature=dict(kind='raises'))
+                    continue
+                run.evaluations += 1
+                run.hist['rotated sources'] += 1
+                run.nontrivial.add(('rot', k))
+                cover = np.zeros(shp, dtype=int)
+                far = None
+                for bp in bps:
+                    w = bp.src_out_block
+                    r0, r1 = max(int(w.row_off), 0), min(int(w.row_off + w.height), shp[0])
+                    c0, c1 = max(int(w.col_off), 0), min(int(w.col_off + w.width), shp[1])
+                    if r1 > r0 and c1 > c0:
+                        cover[r0:r1, c0:c1] += 1
+                    # same ground: the corners of the paired output windows are within one pixel of the coarser grid of each other
+                    so, ro = bp.src_out_block, bp.ref_out_block
+                    tol = max(abs(t_s.a), abs(t_r.a)) * 1.01 + abs(t_s.b) * shp[0]
+                    for (cs, rs), (cr, rr) in (((so.col_off, so.row_off), (ro.col_off, ro.row_off)),
+                                               ((so.col_off + so.width, so.row_off + so.height), (ro.col_off + ro.width, ro.row_off + ro.height))):
+                        gs, gr = t_s * (cs, rs), t_r * (cr, rr)
+                        if max(abs(gs[0] - gr[0]), abs(gs[1] - gr[1])) > tol:
+                            far = (gs, gr)
+                ngap, ndbl = int((cover == 0).sum()), int((cover > 1).sum())
+                if ngap or ndbl or far or t_s.b != 0 or t_s.d != 0:
+                    run.fail(case, f'rotated source ({crs.to_string()}, {px} units/pixel, {ang} deg, proc {proc}): {ngap} pixels of the '
+                             f'processed source {shp} in no output window, {ndbl} in more than one'
+                             + (f'; paired output windows {far[0]} vs {far[1]} are more than a pixel apart on the ground' if far else '')
+                             + ('' if t_s.b == 0 and t_s.d == 0 else '; the processed source is not north-up'),
+                             signature=dict(kind='rotated-cover'))
